@@ -99,7 +99,7 @@ def raw_insert(path: str, evs, assoc):
 # ------------------------------------------------------------------ Coq terms
 
 def coq_node(e) -> str:
-    par = f"(Some {e['par']}%positive)" if e["par"] is not None else "None"
+    par = f"(Some {e['par'] or 999999}%positive)" if e["par"] is not None else "None"
     return (f"(mknode {e['id']} {par} {e['job']} {e['name']} {e['ty']} {coq_z(e['st'])} {coq_z(e['en'])} {e['app']})")
 
 
